@@ -931,7 +931,10 @@ class TreeTransform(Generic[TreeFnT]):
   ):
     """Checks the assign keys are valid."""
     non_dict_keys, dict_keys = mit.partition(_is_dict, assign_keys)
-    new_keys = set(itertools.chain(non_dict_keys, *dict_keys))
+    new_keys_list = list(itertools.chain(non_dict_keys, *dict_keys))
+    new_keys = set(new_keys_list)
+    if len(new_keys) != len(new_keys_list):
+      raise KeyError(f'Duplicate output_keys within {assign_keys}')
     if exisiting_keys is None:
       exisiting_keys = self.output_keys
     if conflicting_keys := new_keys.intersection(exisiting_keys):
